@@ -353,6 +353,7 @@ func checkSugarPair(c *run.Ctx, id string, e *ref.E, env *bridge.Env, user []*re
 
 func runC10(c *run.Ctx) {
 	lateOperators(c)
+	sameTreeTwoEnvironments(c)
 	user := ref.UserFuns()
 	bt := builtinTable()
 	sess := bridge.NewSession(user)
@@ -489,8 +490,15 @@ func lateOperators(c *run.Ctx) {
 		{oper.Operator{Kind: "~", BP: oper.BP_PREFIX, Fixity: oper.PREFIX}, num1("~", func(x float64) float64 { return x + 0.5 }), "~x", 3.5},
 		{oper.Operator{Kind: "!!", BP: oper.BP_POSTFIX, Fixity: oper.POSTFIX}, num1("!!", func(x float64) float64 { return x * 1000 }), "x!!", 3000},
 		{oper.Operator{Kind: "-->", BP: oper.BP_TERM, Fixity: oper.INFIX_L}, num2("-->", func(x, y float64) float64 { return 9000 + x + y }), "x --> 2", 9005},
+		// spellings outside the ASCII operator characters, written directly against their operands
+		{oper.Operator{Kind: "√", BP: oper.BP_PREFIX, Fixity: oper.PREFIX}, num1("√", func(x float64) float64 { return x + 0.125 }), "√x", 3.125},
+		{oper.Operator{Kind: "√", BP: oper.BP_PREFIX, Fixity: oper.PREFIX}, num1("√", func(x float64) float64 { return x + 0.125 }), "√16", 16.125},
+		{oper.Operator{Kind: "×", BP: oper.BP_FACTOR, Fixity: oper.INFIX_L}, num2("×", func(x, y float64) float64 { return x*y + 0.5 }), "x×2", 6.5},
+		{oper.Operator{Kind: "×", BP: oper.BP_FACTOR, Fixity: oper.INFIX_L}, num2("×", func(x, y float64) float64 { return x*y + 0.5 }), "2×x×_y", 0.5},
+		{oper.Operator{Kind: "°", BP: oper.BP_POSTFIX, Fixity: oper.POSTFIX}, num1("°", func(x float64) float64 { return x * 60 }), "x°+1", 181},
+		{oper.Operator{Kind: "≤≥", BP: oper.BP_CMP, Fixity: oper.INFIX_N}, num2("≤≥", func(x, y float64) float64 { return x - y }), "x≤≥1", 2},
 	}
-	env := map[string]interface{}{"x": 3.0}
+	env := map[string]interface{}{"x": 3.0, "_y": 0.0}
 	for i, lo := range ops {
 		for warm := 0; warm < 3; warm++ {
 			if !c.Mine(i*3 + warm) {
@@ -503,7 +511,7 @@ func lateOperators(c *run.Ctx) {
 					ex.UseClosureCompiler()
 				}
 				for k := 0; k < warm; k++ { // the engine has been used before the registration
-					if _, err := ex.Compile("x + 1 - 2 * x", env); err != nil {
+					if _, err := ex.Compile("x + 1 - 2 * x + _y", env); err != nil {
 						c.Violation("sugar-acceptance", "warm-up compile failed: "+err.Error(), nil)
 						return
 					}
@@ -526,11 +534,74 @@ func lateOperators(c *run.Ctx) {
 	}
 }
 
+// sameTreeTwoEnvironments: a host parses once and compiles the tree against
+// several type environments (a rule engine applying one rule to records of
+// different shapes): every compilation must behave like a compilation of a
+// fresh parse -- explicit calls as much as their sugared spellings.
+func sameTreeTwoEnvironments(c *run.Ctx) {
+	srcs := []string{"len(x)", "1 + len(x)", "x.len()", "string(x) + \"!\"", "x == x", "[x, x]", "if(b, x, x)", "len([x])", "string([x, x])",
+		"len(x) + len(x)", "get([x], 0, x) == x", "b ? len(x) : 0", "max(len(x), 1)", "print(len(x))"}
+	variants := []*ref.V{
+		ref.VList(ref.TNum, ref.VNum(1), ref.VNum(2)), ref.VStr("abc"), ref.VMap(ref.TStr, ref.TNum, ref.KV{K: ref.VStr("k"), V: ref.VNum(1)}),
+		ref.VList(ref.TStr, ref.VStr("s")), ref.VStr(""), ref.VList(ref.TList(ref.TNum)),
+	}
+	backs := []bridge.Backend{bridge.VM, bridge.Closure, bridge.Interp}
+	n := 0
+	for si, src := range srcs {
+		for rot := range variants {
+			for _, back := range backs {
+				n++
+				if !c.Mine(n) {
+					continue
+				}
+				src, rot, back := src, rot, back
+				c.Case(fmt.Sprintf("same-tree/%d/%d/%s", si, rot, back), func() {
+					c.Input(src)
+					sess := bridge.NewSession(nil)
+					tree, perr := sess.ParseSrc(src)
+					if perr != nil {
+						c.Violation("sugar-acceptance", fmt.Sprintf("%q does not parse: %v", src, perr), nil)
+						return
+					}
+					for k := range variants {
+						v := variants[(k+rot)%len(variants)]
+						env := bridge.NewEnv()
+						env.Put("x", v)
+						env.Put("b", ref.VBool(true))
+						run1 := func(t ast.Expr) string {
+							cp, err := sess.CompileTree(t, env.TypeEnv(), back)
+							if err != nil {
+								return "rejected at " + err.Stage
+							}
+							res := cp.Exec(env.ValEnv())
+							if res.Class != bridge.OValue {
+								return "ends " + string(res.Class)
+							}
+							return "value " + safeStr(res.Val)
+						}
+						fresh, ferr := sess.ParseSrc(src)
+						if ferr != nil {
+							return
+						}
+						c.Count("sugar_pairs", 1)
+						got, want := run1(tree), run1(fresh)
+						if got != want {
+							c.Violation("sugar-meaning", fmt.Sprintf("%s: %q compiled from a tree that was compiled before (compilation %d, x : %s) is %s; compiled from a fresh parse it is %s", back, src, k+1, v.T.Canon(), got, want), nil)
+							return
+						}
+					}
+					c.Distinct(fmt.Sprintf("same-tree/%d/%d/%s", si, rot, back))
+				})
+			}
+		}
+	}
+}
+
 func init() {
 	run.Register(&run.Spec{
 		ID: "C10", Run: runC10, Level: "exploration",
 		Rule: "structural half: parsed trees from (a) the parser-level tree generator (all node kinds nested in all operand positions, redundant parentheses partly dropped) and (b) generated well-typed programs with 85% sugared forms and 12% redundant groups: Desugar leaves only core node kinds, Desugar∘Desugar == Desugar (full field snapshot), the input tree is byte-for-byte unchanged after Desugar / Check / all four compilers, the desugared tree equals the explicit call tree (receiver first, arguments in source order); " +
-			"semantic half: sugared source vs the explicit tree built directly as ast nodes (no parser): equal acceptance, inferred type, outcome and host-call trace on 4 back ends, plus agreement with the reference evaluator; user operators (infix, right-assoc, prefix, postfix, identifier-like, spellings composed of built-in operators) registered on an engine that has already compiled; a nesting matrix puts every sugar form (prefix, infix, right-assoc chain, ?:, method call, group, sugar inside a subscript index / member object of a method receiver) in every operand position of every construct, two deep. distinct = distinct source text",
+			"semantic half: sugared source vs the explicit tree built directly as ast nodes (no parser): equal acceptance, inferred type, outcome and host-call trace on 4 back ends, plus agreement with the reference evaluator; user operators (infix, right-assoc, prefix, postfix, identifier-like, spellings composed of built-in operators) registered on an engine that has already compiled, also spellings outside ASCII (√ × ° ≤≥) written directly against their operands; one parsed tree compiled against six type environments in turn (explicit and sugared polymorphic calls) vs. a fresh parse each time; a nesting matrix puts every sugar form (prefix, infix, right-assoc chain, ?:, method call, group, sugar inside a subscript index / member object of a method receiver) in every operand position of every construct, two deep. distinct = distinct source text",
 		Assume:    []string{"explicit form = ast.Call(ast.Var(name), args) as produced by bridge.ToAST"},
 		MinEvents: 3000, EventKey: "trees_desugared",
 	})
